@@ -53,6 +53,7 @@ structure S where
   glog : List Grant               -- history: all grants
   ticks : Nat                     -- history: number of the current period
   setCaps : Nat                   -- history: number of `SetCap` calls so far
+  capHi : Nat                     -- history: the largest capacity ever passed to `New` / `SetCap`
   tpc : TPC
   cpc : CPC
   lockHeld : Bool                 -- `controller.lock` is held *between* two steps
@@ -61,7 +62,7 @@ structure S where
 def init (rootCap : Nat) : S :=
   { n := 1, cap := fun _ => rootCap, chain := fun x => if x = 0 then [0] else [], used := fun _ => 0,
     last := fun _ => 0, closed := fun _ => false, unlinked := fun _ => false, waiting := [], answered := [],
-    nextReq := 0, glog := [], ticks := 0, setCaps := 0, tpc := .sel, cpc := .idle, lockHeld := false }
+    nextReq := 0, glog := [], ticks := 0, setCaps := 0, capHi := rootCap, tpc := .sel, cpc := .idle, lockHeld := false }
 
 def upd {α : Type} (f : Nat → α) (i : Nat) (v : α) : Nat → α := fun x => if x = i then v else f x
 
@@ -118,7 +119,7 @@ def doUseWait (s : S) (l amt : Nat) : S :=
 def doNewChild (s : S) (p c : Nat) : S :=
   { s with n := s.n + 1, cap := upd s.cap s.n c, chain := upd s.chain s.n (s.n :: s.chain p),
            used := upd s.used s.n 0, last := upd s.last s.n 0, closed := upd s.closed s.n false,
-           unlinked := upd s.unlinked s.n false }
+           unlinked := upd s.unlinked s.n false, capHi := max s.capHi c }
 /-- `Close` of a non-root limiter that is still open: mark the subtree, unlink from the parent -/
 def doCloseChild (s : S) (l : Nat) : S :=
   { s with closed := fun x => s.closed x || decide (l ∈ s.chain x), unlinked := upd s.unlinked l true }
@@ -136,7 +137,7 @@ def doDoneReceived (s : S) : S := { s with tpc := .dlock, cpc := .ret }
 def doDrain (s : S) : S :=
   { s with answered := s.waiting.map (fun r => (r.id, Ans.errClosed)) ++ s.answered, waiting := [], tpc := .tend }
 /-- `SetCap(capacity)` (capacities are `Nat`: the new cap is non-negative) -/
-def doSetCap (s : S) (l c : Nat) : S := { s with cap := upd s.cap l c, setCaps := s.setCaps + 1 }
+def doSetCap (s : S) (l c : Nat) : S := { s with cap := upd s.cap l c, setCaps := s.setCaps + 1, capHi := max s.capHi c }
 
 /-! ### the transition relation -/
 
